@@ -130,7 +130,7 @@ func c02Bounded(eng *Engine, tier string, seed int64) *BoundedResult {
 		maxLen, full = 6, true
 	}
 	src := fmt.Sprintf(c02TestSrc, maxLen, full)
-	out := runReplayTest(repoDir(), filepath.Join(repoDir(), "netutil"), src)
+	out := runHarness(repoDir(), filepath.Join(repoDir(), "netutil"), src)
 	res := &BoundedResult{
 		What:  "IsValidIPString / IsValidIPPortString compared with net/netip.ParseAddr / ParseAddrPort on the real code",
 		Bound: fmt.Sprintf("all strings over the alphabet 019afg:.%%[] up to length %d, plus IPv6 skeletons with 0..9 fields, every ellipsis position, one varied field, IPv4 tails, zones, ports and brackets (full=%v)", maxLen, full),
